@@ -446,6 +446,128 @@ fn zip_macro(out: &mut String) {
     writeln!(out, "end Soa.Extracted").unwrap();
 }
 
+
+// ---------- derive / attribute landing table (C14): the real Input::new + generators on a corpus of attribute lists ----------
+#[derive(Clone)]
+enum Dir { Derive(Vec<String>), Attr(String, String), Foreign(String) }
+const TRAITS: [&str; 11] = ["Debug", "PartialEq", "Eq", "PartialOrd", "Ord", "Hash", "Clone", "Default", "Serialize", "Deserialize", "Copy"];
+const KINDS: [&str; 7] = ["Vec", "Slice", "SliceMut", "Ref", "RefMut", "Ptr", "PtrMut"];
+fn lean_tr(t: &str) -> String { if TRAITS.contains(&t) { format!(".{}", t) } else { format!("(.other {})", t.len()) } }
+fn lean_at(meta: &syn::Meta) -> Option<String> {
+    let path = meta.path().get_ident().map(|i| i.to_string()).unwrap_or_default();
+    match path.as_str() {
+        "doc" | "allow" => None,
+        "derive" => {
+            let l = meta.require_list().expect("derive list");
+            let ids: syn::punctuated::Punctuated<syn::Path, syn::Token![,]> = l.parse_args_with(syn::punctuated::Punctuated::parse_terminated).expect("derive args");
+            Some(format!("(.derive [{}])", ids.iter().map(|p| lean_tr(&p.segments.last().unwrap().ident.to_string())).collect::<Vec<_>>().join(", ")))
+        }
+        "cfg_attr" => {
+            let s = meta.require_list().map(|l| l.tokens.to_string()).unwrap_or_default();
+            let n: String = s.chars().skip_while(|c| !c.is_ascii_digit()).take_while(|c| c.is_ascii_digit()).collect();
+            Some(format!("(.other {})", if n.is_empty() { "9999".to_string() } else { n }))
+        }
+        _ => Some("(.other 9999)".into()),
+    }
+}
+fn lean_dir(d: &Dir) -> String {
+    match d {
+        Dir::Derive(ts) => format!("(.soaDerive [{}])", ts.iter().map(|t| lean_tr(t)).collect::<Vec<_>>().join(", ")),
+        Dir::Attr(k, a) => {
+            let meta: syn::Meta = syn::parse_str(a).expect("attr parses");
+            let at = lean_at(&meta).unwrap_or("(.other 9999)".into());
+            match KINDS.iter().position(|x| x == k) {
+                Some(_) => format!("(.soaAttr .{} {})", match k.as_str() { "Vec" => "vec", "Slice" => "slice", "SliceMut" => "sliceMut", "Ref" => "ref", "RefMut" => "refMut", "Ptr" => "ptr", _ => "ptrMut" }, at),
+                None => format!("(.soaAttrBad {})", at),
+            }
+        }
+        Dir::Foreign(_) => ".foreign".into(),
+    }
+}
+fn src_dir(d: &Dir) -> String {
+    match d {
+        Dir::Derive(ts) => format!("#[soa_derive({})]", ts.join(", ")),
+        Dir::Attr(k, a) => format!("#[soa_attr({}, {})]", k, a),
+        Dir::Foreign(a) => format!("#[{}]", a),
+    }
+}
+fn run_derive_case(dirs: &[Dir]) -> Option<(Vec<Vec<String>>, Vec<bool>)> {
+    let src = format!("{} pub struct P {{ pub a: A, #[nested_soa] pub n: N }}", dirs.iter().map(src_dir).collect::<Vec<_>>().join(" "));
+    let r = std::panic::catch_unwind(|| {
+        let ast: syn::DeriveInput = syn::parse_str(&src).expect("parse");
+        let input = input::Input::new(ast);
+        let mut structs: std::collections::HashMap<String, Vec<String>> = Default::default();
+        let mut fns: std::collections::HashSet<(String, String)> = Default::default();
+        for tstream in [vec::derive(&input), refs::derive(&input), ptr::derive(&input), slice::derive(&input), slice::derive_mut(&input),
+                        index::derive(&input), iter::derive(&input), generic::derive_slice(&input), generic::derive_slice_mut(&input), generic::derive_vec(&input)] {
+            let file: syn::File = syn::parse2(tstream).expect("generated code parses");
+            for item in &file.items {
+                match item {
+                    Item::Struct(st) => { structs.insert(st.ident.to_string(), st.attrs.iter().filter_map(|a| lean_at(&a.meta)).collect()); }
+                    Item::Impl(im) => {
+                        let owner = ts(&im.self_ty);
+                        for ii in &im.items { if let ImplItem::Fn(f) = ii { fns.insert((owner.clone(), f.sig.ident.to_string())); } }
+                    }
+                    _ => {}
+                }
+            }
+        }
+        let lists: Vec<Vec<String>> = KINDS.iter().map(|k| structs.get(&format!("P{}", k)).cloned().expect("generated struct present")).collect();
+        let has = |o: &str, f: &str| fns.contains(&(o.to_string(), f.to_string()));
+        (lists, vec![has("PVec", "resize"), has("PSlice<'a>", "to_vec"), has("PSliceMut<'a>", "to_vec"), has("PVec", "extend_from_slice")])
+    });
+    r.ok()
+}
+fn derive_table(out: &mut String) {
+    use std::fmt::Write;
+    let mut cases: Vec<Vec<Dir>> = vec![];
+    let d = |ts: &[&str]| Dir::Derive(ts.iter().map(|s| s.to_string()).collect());
+    // all 256 subsets of the eight std traits, as one soa_derive attribute
+    for mask in 0u32..256 { cases.push(vec![Dir::Derive((0..8).filter(|i| mask >> i & 1 == 1).map(|i| TRAITS[i].to_string()).collect())]); }
+    // Copy anywhere is rejected
+    cases.push(vec![d(&["Copy"])]); cases.push(vec![d(&["Debug", "Copy"])]); cases.push(vec![d(&["Copy", "Clone"])]);
+    cases.push(vec![d(&["Debug"]), d(&["Clone", "Copy"])]);
+    // serde traits, unknown traits, reversed order, duplicates, several attributes
+    cases.push(vec![d(&["Serialize", "Deserialize"])]); cases.push(vec![d(&["Debug", "Serialize", "Clone", "Deserialize", "PartialEq"])]);
+    cases.push(vec![d(&["Foo"])]); cases.push(vec![d(&["Foo", "Clone", "BarBaz"])]);
+    cases.push(vec![d(&["Hash", "Ord", "PartialOrd", "Eq", "PartialEq", "Debug"])]);
+    cases.push(vec![d(&["Clone"]), d(&["Debug"]), d(&[]), d(&["Default", "PartialEq"])]);
+    cases.push(vec![d(&["Debug", "Debug"])]);
+    // every kind through soa_attr: a derive and a tagged attribute; alone, before and after a soa_derive
+    for (i, k) in KINDS.iter().enumerate() {
+        cases.push(vec![Dir::Attr(k.to_string(), "derive(Hash)".into())]);
+        cases.push(vec![Dir::Attr(k.to_string(), format!("cfg_attr(tag{}, x)", i + 1))]);
+        cases.push(vec![d(&["Debug", "Clone"]), Dir::Attr(k.to_string(), "derive(PartialEq)".into()), d(&["Eq"])]);
+        cases.push(vec![Dir::Attr(k.to_string(), format!("cfg_attr(tag{}, x)", i + 10)), d(&["Clone", "PartialOrd"]), Dir::Attr(k.to_string(), "derive(Clone)".into())]);
+        cases.push(vec![Dir::Foreign("derive(Debug)".into()), Dir::Attr(k.to_string(), "derive(Default)".into()), Dir::Foreign("repr(C)".into())]);
+    }
+    // all kinds at once, in reverse order
+    cases.push(KINDS.iter().rev().enumerate().map(|(i, k)| Dir::Attr(k.to_string(), format!("cfg_attr(tag{}, x)", i + 20))).collect());
+    // not a kind
+    cases.push(vec![Dir::Attr("Bogus".into(), "derive(Debug)".into())]);
+    cases.push(vec![d(&["Debug"]), Dir::Attr("Iter".into(), "cfg_attr(tag5, x)".into())]);
+    // only foreign attributes
+    cases.push(vec![Dir::Foreign("derive(Debug, Clone)".into())]);
+    let hook = std::panic::take_hook();
+    std::panic::set_hook(Box::new(|_| {}));
+    let rows: Vec<String> = cases.iter().map(|c| {
+        let dirs = c.iter().map(lean_dir).collect::<Vec<_>>().join(", ");
+        let o = match run_derive_case(c) {
+            None => "none".to_string(),
+            Some((lists, api)) => format!("some ([{}], [{}])",
+                lists.iter().map(|l| format!("[{}]", l.join(", "))).collect::<Vec<_>>().join(",\n      "),
+                api.iter().map(|b| b.to_string()).collect::<Vec<_>>().join(", ")),
+        };
+        format!("  ⟨[{}],\n    {}⟩", dirs, o)
+    }).collect();
+    std::panic::set_hook(hook);
+    writeln!(out, "import Soa.Model.Derive\n-- generated by /verif/extract: the real Input::new and generators of /repo run on a corpus of attribute lists; do not edit").unwrap();
+    writeln!(out, "namespace Soa.Extracted\nopen Soa.Derive\n").unwrap();
+    writeln!(out, "/-- per input attribute list: the attributes found on the seven generated structs (Vec, Slice, SliceMut, Ref, RefMut, Ptr, PtrMut; docs and\n    `allow` omitted) and the presence of resize / Slice::to_vec / SliceMut::to_vec / extend_from_slice; `none` = the derive panics -/").unwrap();
+    writeln!(out, "def deriveTable : List Row := [\n{}]\n", rows.join(",\n")).unwrap();
+    writeln!(out, "def nDeriveCases : Nat := {}\n\nend Soa.Extracted", cases.len()).unwrap();
+}
+
 /// write only when the content changed, so that `lake build` re-checks nothing on an unchanged tree
 fn write_if_changed(path: &str, content: &str) {
     if std::fs::read_to_string(path).map(|old| old == content).unwrap_or(false) { return; }
@@ -468,4 +590,7 @@ fn main() {
     let mut z = String::new();
     zip_macro(&mut z);
     write_if_changed(&format!("{}/ZipMacro.lean", outdir), &z);
+    let mut d = String::new();
+    derive_table(&mut d);
+    write_if_changed(&format!("{}/Derive.lean", outdir), &d);
 }
